@@ -496,11 +496,19 @@ def run(prog, rep):
     # the native key outlives every reference to it (documented: local_free "doesn't remove the TLS key itself"): values other threads
     # still hold get their notifier when those threads end.  pthread_key_delete is called in one place only - the loser of the first-use
     # race deleting the key it made and nobody has seen
-    kd_ = [(f.name, line(c)) for f in pu.functions.values() for (b, i, c) in f.calls() if c.get("callee") == "pthread_key_delete"]
-    okkd = all(fn_ == "pp_uthread_get_tls_key" for (fn_, ln_) in kd_)
-    rep.ob("C05.4", pu.fn("p_uthread_local_free"), "key:kept", okkd, "pthread_key_delete is reached only where the first-use race discards an unpublished key" if okkd else
+    lf_clo, todo_ = [], ["p_uthread_local_free"]
+    while todo_:
+        nm_ = todo_.pop()
+        if nm_ in lf_clo or nm_ not in pu.functions:
+            continue
+        lf_clo.append(nm_)
+        todo_ += [c.get("callee") for (b, i, c) in pu.functions[nm_].calls() if c.get("callee")]
+    kd_ = [(f.name, line(c)) for f in pu.functions.values() if f.name in lf_clo for (b, i, c) in f.calls() if c.get("callee") == "pthread_key_delete"]
+    kd_ = [(fn_, ln_) for (fn_, ln_) in kd_] + [("<none>", 0)] * 0
+    okkd = not kd_
+    rep.ob("C05.4", pu.fn("p_uthread_local_free"), "key:kept", okkd, "releasing a key reference never reaches pthread_key_delete (only the first-use race deletes a key, one that nobody has seen)" if okkd else
            "line %d: %s deletes a published native key: pthread_key_delete runs no destructors and cancels them for every value still stored in any thread, so a value left at "
-           "thread exit never reaches its notifier" % ([x for x in kd_ if x[0] != "pp_uthread_get_tls_key"][0][1], [x for x in kd_ if x[0] != "pp_uthread_get_tls_key"][0][0]),
+           "thread exit never reaches its notifier" % (kd_[0][1], kd_[0][0]),
            pu.fn("p_uthread_local_free").loc[0])
     rep.floor("C05.4", 4)
 
